@@ -732,7 +732,16 @@ impl<'a> GeneratorState<'a> {
                     }
                 }
                 variable => {
-                    let v = self.compiler_state.get_variable(variable);
+                    // A function name or a lost literal is not a value
+                    let v = match self.compiler_state.variables.get(variable) {
+                        Some(v) => v,
+                        None => {
+                            return Err(self.compiler_state.syntax_error(
+                                &format!("{} is not a variable", variable),
+                                pos,
+                            ))
+                        }
+                    };
                     let dummy = if let Expr::Nothing = **sub {
                         None
                     } else {
@@ -1095,9 +1104,8 @@ impl<'a> GeneratorState<'a> {
     fn generate_strobe_statement(&mut self, expr: &Expr, pos: usize) -> Result<(), Error> {
         match expr {
             Expr::Identifier(name, _) => {
-                let v = self.compiler_state.get_variable(name);
-                match v.var_type {
-                    VariableType::CharPtr => {
+                match self.compiler_state.variables.get(name).map(|v| v.var_type) {
+                    Some(VariableType::CharPtr) => {
                         self.asm(STA, &ExprType::Absolute(name.clone(), true, 0), pos, false)?;
                         Ok(())
                     }
